@@ -110,8 +110,10 @@ func (m *hubMock) call(k, mb, id string) error {
 	return nil
 }
 
-func (m *hubMock) Receive(msg event.MessageMetadata) error { return m.call("stored", msg.Mailbox, msg.ID) }
-func (m *hubMock) Delete(mailbox string, id string) error   { return m.call("deleted", mailbox, id) }
+func (m *hubMock) Receive(msg event.MessageMetadata) error {
+	return m.call("stored", msg.Mailbox, msg.ID)
+}
+func (m *hubMock) Delete(mailbox string, id string) error { return m.call("deleted", mailbox, id) }
 
 func (m *hubMock) arm() (gate, entered chan struct{}) {
 	m.mu.Lock()
